@@ -37,117 +37,124 @@ ANA_FILE = 'skyllh/core/analysis.py'
 TDPS_FILE = 'skyllh/analyses/i3/publicdata_ps/time_dependent_ps.py'
 TAYLOR = 'LLHRatioZeroNsTaylorWilksTestStatistic'
 
-# recorded values (what the fixed tree contains) — used when extraction fails
-_REC = {
-    'grad2_call': (0, ['ns', 'ns_pidx', 'src_params_recarray', 'tl']),
-    'grad2_impls': [
-        ('TCLLHRatio', ['ns', 'ns_pidx', 'src_params_recarray', 'tl'], ['ns', 'ns_pidx', 'src_params_recarray'], True),
-        ('ZeroSigH0SingleDatasetTCLLHRatio', ['ns', 'ns_pidx', 'src_params_recarray', 'tl'], ['ns'], False),
-        ('MultiDatasetTCLLHRatio', ['ns', 'ns_pidx', 'src_params_recarray', 'tl'], ['ns', 'ns_pidx', 'src_params_recarray'], False),
-        ('NsProfileMultiDatasetTCLLHRatio', ['ns', 'ns_pidx', 'src_params_recarray', 'tl'], ['ns', 'ns_pidx', 'src_params_recarray'], False),
-    ],
-    'outer': (['log_lambda', 'fitparam_values'], ['log_lambda', 'fitparam_values'], True),
-    'fixed': ['pmm', 'log_lambda', 'fitparam_values'],
-    'sites': [('LLHRatioAnalysis.unblind', 0, ['log_lambda', 'fitparam_values', 'llhratio', 'tl']),
-              ('LLHRatioAnalysis.do_trial_with_given_pseudo_data', 0, ['log_lambda', 'fitparam_values', 'llhratio', 'tl']),
-              ('time_dependent_ps.calculate_TS', 0, ['log_lambda', 'fitparam_values', 'llhratio'])],
-    'ts_impls': [
-        ('WilksTestStatistic', ['pmm', 'log_lambda', 'fitparam_values'], ['pmm', 'log_lambda', 'fitparam_values'], True),
-        (TAYLOR, ['pmm', 'log_lambda', 'fitparam_values', 'llhratio', 'grads', 'tl'],
-         ['pmm', 'log_lambda', 'fitparam_values', 'llhratio'], True),
-    ],
-}
-
-
 # ------------------------------------------------------------------------------------------
-# translator part: call signatures and call-site keywords from the current source
+# translator part: call signatures and call-site keywords from the current source (every *.py under skyllh/)
 
-def _classes_defining(relpath, func):
-    import ast
-    from harness import extract
-    tree = extract.parse(relpath)
+def _skyllh_files():
+    import os
+    from harness.core import REPO
     out = []
-    for node in tree.body:
-        if isinstance(node, ast.ClassDef) and any(
-                isinstance(n, ast.FunctionDef) and n.name == func for n in node.body):
-            out.append(node.name)
-    return out
+    for root, _dirs, files in os.walk(os.path.join(REPO, 'skyllh')):
+        for f in sorted(files):
+            if f.endswith('.py'):
+                out.append(os.path.relpath(os.path.join(root, f), REPO))
+    return sorted(out)
 
 
-def _call_sites(relpath, callee_attr):
-    """[(qualified function name, n positional, [keyword names])] of every `<expr>.callee_attr(...)`."""
+def _fail(msg):
+    from harness.core import MachineryError
+    raise MachineryError('C12 signature extraction: ' + msg)
+
+
+def _sig_of(relpath, cls, f):
+    """(params without self, required, has **kwargs); anything pyBind does not model is a machinery error"""
+    a = f.args
+    if a.posonlyargs or a.kwonlyargs or a.vararg is not None:
+        _fail('%s: %s.%s uses positional-only / keyword-only parameters or *args, which Model/Stat.lean pyBind does not cover' % (
+            relpath, cls, f.name))
+    pos = [x.arg for x in a.args]
+    nreq = len(pos) - len(a.defaults)
+    required = pos[:nreq]
+    if pos and pos[0] in ('self', 'cls'):
+        pos, required = pos[1:], [r for r in required if r not in ('self', 'cls')]
+    return pos, required, a.kwarg is not None
+
+
+def _scan():
+    """one pass over skyllh/: definitions of calculate_ns_grad2, TestStatistic classes with a concrete __call__,
+    call sites of calculate_ns_grad2 and calculate_test_statistic"""
     import ast
     from harness import extract
-    tree = extract.parse(relpath)
-    res = []
+    g2_impls, g2_calls, ts_sites, classes = [], [], [], []
+    for rel in _skyllh_files():
+        try:
+            tree = extract.parse(rel)
+        except SyntaxError as e:
+            _fail('%s does not parse: %s' % (rel, e))
+        mod = rel[len('skyllh/'):-3].replace('/', '.')
 
-    def visit(node, qual):
-        for ch in ast.iter_child_nodes(node):
-            if isinstance(ch, ast.ClassDef):
-                visit(ch, qual + [ch.name])
-            elif isinstance(ch, (ast.FunctionDef, ast.AsyncFunctionDef)):
-                for n in ast.walk(ch):
-                    if isinstance(n, ast.Call) and isinstance(n.func, ast.Attribute) and n.func.attr == callee_attr:
-                        if any(k.arg is None for k in n.keywords):
-                            continue     # a **kwargs pass-through, not a concrete call site
-                        res.append(('.'.join(qual + [ch.name]), len(n.args), [k.arg for k in n.keywords]))
-    visit(tree, [])
-    return res
+        def visit(node, qual):
+            for ch in ast.iter_child_nodes(node):
+                if isinstance(ch, ast.ClassDef):
+                    classes.append((rel, ch))
+                    for n in ch.body:
+                        if isinstance(n, ast.FunctionDef) and n.name == 'calculate_ns_grad2':
+                            g2_impls.append((ch.name,) + _sig_of(rel, ch.name, n))
+                    visit(ch, qual + [ch.name])
+                elif isinstance(ch, (ast.FunctionDef, ast.AsyncFunctionDef)):
+                    where = '.'.join([mod.split('.')[-1]] + qual + [ch.name]) if not qual else '.'.join(qual + [ch.name])
+                    for n in ast.walk(ch):
+                        if not isinstance(n, ast.Call):
+                            continue
+                        name = n.func.attr if isinstance(n.func, ast.Attribute) else (n.func.id if isinstance(n.func, ast.Name) else '')
+                        if any(k.arg is None for k in n.keywords) or any(isinstance(x, ast.Starred) for x in n.args):
+                            star = True
+                        else:
+                            star = False
+                        if name.endswith('calculate_ns_grad2'):
+                            if star:
+                                _fail('%s: %s calls calculate_ns_grad2 with * / ** arguments' % (rel, where))
+                            g2_calls.append((where, len(n.args), [k.arg for k in n.keywords]))
+                        elif name == 'calculate_test_statistic' and not star:
+                            ts_sites.append((where, len(n.args), [k.arg for k in n.keywords]))
+        visit(tree, [])
+    # TestStatistic class family (by base-class name, transitively)
+    fam = {'TestStatistic'}
+    changed = True
+    while changed:
+        changed = False
+        for rel, c in classes:
+            bases = {b.id if isinstance(b, ast.Name) else (b.attr if isinstance(b, ast.Attribute) else '') for b in c.bases}
+            if c.name not in fam and bases & fam:
+                fam.add(c.name)
+                changed = True
+    ts_impls = []
+    for rel, c in classes:
+        if c.name in fam:
+            for n in c.body:
+                if isinstance(n, ast.FunctionDef) and n.name == '__call__' and not any(
+                        'abstractmethod' in ast.dump(d) for d in n.decorator_list):
+                    ts_impls.append((c.name,) + _sig_of(rel, c.name, n))
+    return g2_impls, g2_calls, ts_sites, ts_impls
 
 
 def extract_signatures(ctx=None):
+    """every failure is a machinery error (exit 2): a fall-back to recorded signatures would hide exactly the
+    defect class the call-compatibility obligations exist for"""
+    import ast
     from harness import extract
-    d = {}
-    fallbacks = []
-
-    def attempt(key, fn):
-        try:
-            d[key] = fn()
-            if not d[key]:
-                raise LookupError('nothing found')
-        except Exception as e:  # noqa
-            d[key] = _REC[key]
-            fallbacks.append('%s (%s: %s)' % (key, type(e).__name__, e))
-
-    def grad2_call():
-        calls = extract.call_keywords(TS_FILE, TAYLOR, '__call__', 'calculate_ns_grad2')
-        assert len(calls) == 1
-        return (calls[0][0], calls[0][1])
-    attempt('grad2_call', grad2_call)
-    attempt('grad2_impls', lambda: [
-        (c,) + tuple(extract.func_params(LLH_FILE, c, 'calculate_ns_grad2'))
-        for c in _classes_defining(LLH_FILE, 'calculate_ns_grad2')])
-    attempt('outer', lambda: tuple(extract.func_params(ANA_FILE, 'Analysis', 'calculate_test_statistic')))
-
-    def fixed():
-        calls = extract.call_keywords(ANA_FILE, 'Analysis', 'calculate_test_statistic', '_test_statistic')
-        assert len(calls) == 1 and calls[0][0] == 0
-        return [k for k in calls[0][1] if k is not None]
-    attempt('fixed', fixed)
-
-    def sites():
-        s = _call_sites(ANA_FILE, 'calculate_test_statistic')
-        s += [('time_dependent_ps.' + q, n, k) for q, n, k in _call_sites(TDPS_FILE, 'calculate_test_statistic')]
-        return s
-    attempt('sites', sites)
-
-    def ts_impls():
-        import ast
-        tree = extract.parse(TS_FILE)
-        out = []
-        for c in _classes_defining(TS_FILE, '__call__'):
-            node = extract.find_class(tree, c)
-            f = [n for n in node.body if isinstance(n, ast.FunctionDef) and n.name == '__call__'][0]
-            if any('abstractmethod' in ast.dump(dec) for dec in f.decorator_list):
-                continue
-            out.append((c,) + tuple(extract.func_params(TS_FILE, c, '__call__')))
-        return out
-    attempt('ts_impls', ts_impls)
-    if ctx is not None:
-        for f in fallbacks:
-            ctx.note('C12 signature extraction fell back to the recorded value: ' + f)
-            ctx.proof['generated_fallbacks'].append(f)
-    return d
+    g2_impls, g2_calls, ts_sites, ts_impls = _scan()
+    taylor_calls = [c for c in g2_calls if c[0].startswith(TAYLOR + '.')]
+    if not g2_impls or not ts_impls or not ts_sites or not taylor_calls:
+        _fail('nothing found for %s' % ', '.join(n for n, v in (
+            ('def calculate_ns_grad2', g2_impls), ('TestStatistic.__call__', ts_impls),
+            ('calculate_test_statistic call sites', ts_sites), ('calculate_ns_grad2 call in ' + TAYLOR, taylor_calls)) if not v))
+    tree = extract.parse(ANA_FILE)
+    cls = extract.find_class(tree, 'Analysis')
+    f = [n for n in (cls.body if cls else []) if isinstance(n, ast.FunctionDef) and n.name == 'calculate_test_statistic']
+    if not f:
+        _fail('%s: Analysis.calculate_test_statistic not found' % ANA_FILE)
+    outer = _sig_of(ANA_FILE, 'Analysis', f[0])
+    fwd = [n for n in ast.walk(f[0]) if isinstance(n, ast.Call) and isinstance(n.func, ast.Attribute)
+           and n.func.attr == '_test_statistic']
+    if len(fwd) != 1 or fwd[0].args:
+        _fail('Analysis.calculate_test_statistic: expected exactly one keyword-only call self._test_statistic(...)')
+    if not outer[2] or not any(k.arg is None and isinstance(k.value, ast.Name) and k.value.id == f[0].args.kwarg.arg
+                                for k in fwd[0].keywords):
+        _fail('Analysis.calculate_test_statistic no longer forwards its **kwargs to the test statistic (forwardKws assumes it)')
+    fixed = [k.arg for k in fwd[0].keywords if k.arg is not None]
+    return {'grad2_calls': g2_calls, 'grad2_impls': g2_impls, 'outer': outer, 'fixed': fixed, 'sites': ts_sites,
+            'ts_impls': ts_impls}
 
 
 def _lean_sig(params, required, kwargs):
@@ -159,22 +166,21 @@ def _lean_sig(params, required, kwargs):
 def generated(ctx):
     from harness.extract import lean_str_list
     d = extract_signatures(ctx)
-    L = ['/- GENERATED by harness/props/c12.py from the current skyllh source (ast, no execution). -/',
+    L = ['/- GENERATED by harness/props/c12.py from the current skyllh source (ast over every skyllh/**/*.py, no execution). -/',
          'import SkyllhModel.Model.Stat', 'namespace Gen.C12', 'open Stat', '']
-    npos, kws = d['grad2_call']
-    L += ['/-- `llhratio.calculate_ns_grad2(...)` in %s.__call__ -/' % TAYLOR,
-          'def grad2CallNPos : Nat := %d' % npos,
-          'def grad2CallKeywords : List String := %s' % lean_str_list(kws), '',
-          '/-- every `def calculate_ns_grad2` in %s -/' % LLH_FILE,
+    L += ['/-- every call of `calculate_ns_grad2` in skyllh (function, positional arguments, keywords) -/',
+          'def grad2Calls : List (String × Nat × List String) := [']
+    L += ['  ' + ',\n  '.join('("%s", %d, %s)' % (q, n, lean_str_list(k)) for q, n, k in d['grad2_calls']) + ']', '',
+          '/-- every `def calculate_ns_grad2` in skyllh -/',
           'def grad2Impls : List (String × Sig) := [']
     L += ['  ' + ',\n  '.join('("%s", %s)' % (c, _lean_sig(p, r, k)) for c, p, r, k in d['grad2_impls']) + ']', '']
-    L += ['/-- `Analysis.calculate_test_statistic` and the keywords it passes on itself -/',
+    L += ['/-- `Analysis.calculate_test_statistic` (forwards its `**kwargs`) and the keywords it passes on itself -/',
           'def tsOuter : Sig := %s' % _lean_sig(*d['outer']),
           'def tsFixed : List String := %s' % lean_str_list(d['fixed']), '',
-          '/-- call sites of `calculate_test_statistic` (function, positional arguments, keywords) -/',
+          '/-- every call of `calculate_test_statistic` in skyllh (function, positional arguments, keywords) -/',
           'def tsSites : List (String × Nat × List String) := [']
     L += ['  ' + ',\n  '.join('("%s", %d, %s)' % (q, n, lean_str_list(k)) for q, n, k in d['sites']) + ']', '']
-    L += ['/-- every concrete `TestStatistic.__call__` in %s -/' % TS_FILE,
+    L += ['/-- every concrete `__call__` of a `TestStatistic` subclass in skyllh -/',
           'def tsImpls : List (String × Sig) := [']
     L += ['  ' + ',\n  '.join('("%s", %s)' % (c, _lean_sig(p, r, k)) for c, p, r, k in d['ts_impls']) + ']', '']
     L += ['end Gen.C12', '']
@@ -1642,9 +1648,11 @@ def run(ctx):
         ctx.count('poly:deg=%d' % deg)
     # ---- keyword binding
     sig = extract_signatures()
-    npos, kws = sig['grad2_call']
-    for cname, p, r, k in sig['grad2_impls']:
-        cases.append({'kind': 'bind', 'params': list(p), 'required': list(r), 'kwargs': bool(k), 'npos': npos, 'kws': list(kws)})
+    for _where, npos, kws in sig['grad2_calls']:
+        for cname, p, r, k in sig['grad2_impls']:
+            cases.append({'kind': 'bind', 'params': list(p), 'required': list(r), 'kwargs': bool(k), 'npos': npos, 'kws': list(kws)})
+    ctx.extra['signatures'] = {'calculate_ns_grad2 definitions': len(sig['grad2_impls']), 'calculate_ns_grad2 call sites': len(sig['grad2_calls']),
+                               'TestStatistic.__call__ definitions': len(sig['ts_impls']), 'calculate_test_statistic call sites': len(sig['sites'])}
     for _ in range(ctx.n(150, 5000)):
         cases.append(gen_bind(rng))
     for _ in range(ctx.n(20, 200)):
